@@ -321,6 +321,11 @@ def fixed_cases(tier):
         out.append(gen_cycle(r))
     for t in ('bkl', 'bkl-o', 'bkld', 'bkli', 'bklr'):
         out.append({'kind': 'fault', 'tool': t})
+    # read errors injected by strace into the reads of one layer file (first read, or the read after the data)
+    for t in ('bkl', 'bkld', 'bkli', 'bklr', 'catb'):
+        for target in ('lower', 'top'):
+            for when in (1, 2):
+                out.append({'kind': 'fault', 'tool': t, 'inject': 'read-eio', 'target': target, 'when': when})
     for odd in FSODD:
         out.append({'kind': 'fsodd', 'odd': odd})
     import base64
@@ -716,8 +721,57 @@ def check_fsodd(ctx, case, res):
     return res
 
 
+def check_read_fault(ctx, case, res):
+    """A read of one layer file fails with EIO (injected by strace -P <file> -e inject=read:error=EIO:when=N): the tool must exit
+    non-zero with a diagnostic and nothing on stdout - in particular it must not go on with a partial or missing layer."""
+    import subprocess
+    from ..core import scrub_env
+    d = ctx.casedir()
+    try:
+        with open(os.path.join(d, 'a.yaml'), 'w') as f:
+            f.write('base: 1\nl: [1, 2]\nneed: $required\n')
+        with open(os.path.join(d, 'a.b.yaml'), 'w') as f:
+            f.write('top: 2\nneed: filled\n')
+        with open(os.path.join(d, 'other.json'), 'w') as f:
+            f.write('{"base": 1, "top": 3}\n')
+        t = case['tool']
+        victim = os.path.join(d, 'a.yaml' if case['target'] == 'lower' else 'a.b.yaml')
+        argv = {'bkl': ['bkl', '-f', 'json', 'a.b.yaml'], 'bkld': ['bkld', 'other.json', 'a.b.yaml'], 'bkli': ['bkli', 'a.b.yaml', 'other.json'], 'bklr': ['bklr', 'a.b.yaml'],
+                'catb': [os.path.join(d, 'catb'), 'a.b.yaml']}[t]
+        if t == 'catb':
+            os.symlink(ctx.bin('bklb'), os.path.join(d, 'catb'))
+            os.makedirs(os.path.join(d, 'wtmp'), exist_ok=True)
+        else:
+            argv[0] = ctx.bin(argv[0])
+        tracefile = os.path.join(d, 'strace.out')
+        full = ['strace', '-f', '-qq', '-P', victim, '-e', 'trace=read', '-e', 'inject=read:error=EIO:when=%d' % case['when'], '-o', tracefile] + argv
+        p = subprocess.run(full, cwd=d, env=scrub_env({'TMPDIR': os.path.join(d, 'wtmp')}), stdout=subprocess.PIPE, stderr=subprocess.PIPE, timeout=120)
+        res.execs += 1
+        res.nontrivial = True
+        res.labels.add('fault:%s:read-eio:%s:%d' % (t, case['target'], case['when']))
+        trace = open(tracefile, errors='replace').read() if os.path.exists(tracefile) else ''
+        if 'INJECTED' not in trace:
+            return res.inconclusive('the injected read error was never delivered (strace saw no matching read)')
+        detail = {'tool': t, 'target': case['target'], 'when': case['when'], 'stdout': p.stdout[:300].decode('utf-8', 'replace'), 'stderr': p.stderr[-300:].decode('utf-8', 'replace')}
+        if crashed(p.returncode, p.stderr):
+            return res.violate('crash', '%s died on a read error: rc=%s' % (t, p.returncode), **detail)
+        if p.returncode == 0:
+            return res.violate('fault', '%s reported success although a read of a layer file failed (EIO)' % t, **detail)
+        if p.stdout:
+            return res.violate('partial', '%s failed on a read error but wrote %d bytes to stdout' % (t, len(p.stdout)), **detail)
+        if not p.stderr.strip():
+            return res.violate('silent', '%s exited %s without a diagnostic on a read error' % (t, p.returncode), **detail)
+        res.ev('fault_runs_judged')
+        res.ev('read_faults_injected')
+    finally:
+        ctx.cleanup_case(d)
+    return res
+
+
 def check_fault(ctx, case, res):
     """The output device is full (/dev/full): the tool must exit non-zero with a diagnostic."""
+    if case.get('inject') == 'read-eio':
+        return check_read_fault(ctx, case, res)
     import subprocess
     d = ctx.casedir()
     try:
